@@ -287,7 +287,20 @@ class SymSeries(_RowsMixin, SymBase):
             raise Unsupported("fillna(method=)")
         if isinstance(value, SymSeries):
             fc = value.cells() if self.prov == value.prov else reindex_cells(value, self)
-        elif isinstance(value, (dict, SymLabelSeries, SymFrame)):
+        elif isinstance(value, dict):
+            # on a Series the keys of a mapping are *index labels*
+            if not self.index_.defined or self.index_.labels:
+                raise Unsupported("fillna mapping on a series with an undefined index")
+            fc = []
+            for i in range(self.nslots):
+                val, null = z3.IntVal(0), T
+                for k, v in value.items():
+                    if isinstance(k, int) and not isinstance(k, bool):
+                        m = I(self.index_.vals[i]) == int(k)
+                        lc = lit_cell(v)
+                        val, null = If(m, lc.num(), val), If(m, lc.null, null)
+                fc.append(Cell(val, null, "f"))
+        elif isinstance(value, (SymLabelSeries, SymFrame)):
             raise Unsupported("fillna mapping on series")
         else:
             fc = [lit_cell(value)] * self.nslots
@@ -303,6 +316,7 @@ class SymSeries(_RowsMixin, SymBase):
             raise Unsupported("isin arg")
         if any(is_null_literal(v) for v in vals):
             raise Unsupported("isin with NaN")
+        vals = [v for v in vals if not isinstance(v, str)]  # a string never equals a numeric cell
         lits = [lit_cell(v) for v in vals]
         out = [And(Not(c.null), Or(*[c.num() == l.num() for l in lits])) for c in self.cells()]
         return self._with(col=Col("b", out))
@@ -1247,6 +1261,12 @@ class SymFrame(_RowsMixin, SymBase):
         return self._map_cols(lambda s: s.fillna(value))
 
     def isin(self, values):
+        if isinstance(values, dict):
+            # per column: a column without an entry matches nothing
+            false = lambda s: s._with(col=Col("b", [F] * s.nslots))
+            return self._with(cols=[(k, (SymSeries(k, c, **self._row_attrs()).isin(values[k]) if k in values else false(SymSeries(k, c, **self._row_attrs()))).col) for k, c in self.cols])
+        if isinstance(values, SymBase):
+            raise Unsupported("isin with a frame / series")
         return self._map_cols(lambda s: s.isin(values))
 
     def clip(self, lower=None, upper=None, axis=None, **kw):
